@@ -403,6 +403,7 @@ impl Property for C14 {
         std::fs::create_dir_all(&dir).expect("mkdir");
         let mut compiled_runs = 0u64;
         let mut binary_runs = 0u64;
+        let mut binary_colour_runs = 0u64;
         let mut bad: Option<(Scenario, Violation)> = None;
         'outer: for i in 0..n {
             let mut base = make_scenario(self, seed, i, tier);
@@ -490,10 +491,14 @@ impl Property for C14 {
             let ex = expected(&sc).expect("expected");
             let path = dir.join("p.hyeong");
             std::fs::write(&path, sc.source()).expect("write");
-            let args: Vec<String> = vec!["run".into(), format!("-O{}", level), "--color".into(), "never".into(), path.to_string_lossy().into_owned()];
+            // every fourth input with colours on: the log lines carry escape sequences, the program's text must not
+            let colour = i % 4 == 3;
+            sc.set_knob("colour", colour as i64);
+            let args: Vec<String> = vec!["run".into(), format!("-O{}", level), "--color".into(), if colour { "always" } else { "never" }.into(), path.to_string_lossy().into_owned()];
             let r = real::run(&bin, &args, None, &sc.stdin, &chunks, Duration::from_secs(120)).expect("spawn");
             binary_runs += 1;
-            let rest = crate::props::c01::program_stdout(&r.stdout, &ex.out);
+            binary_colour_runs += colour as u64;
+            let rest = if colour { crate::props::c01::program_stdout_colour(&r.stdout, &ex.out) } else { crate::props::c01::program_stdout(&r.stdout, &ex.out) };
             if r.timed_out || r.status != Some(0) || rest != ex.out || !r.stderr.is_empty() {
                 let (e, o) = diff_msg(&ex.out, &rest);
                 let mut v = Violation::new(&format!("binary-O{}-output-bytes", level), format!("status 0; {}", e), format!("{}; {} ; stderr {:?}", r.describe(), o, lossy(&r.stderr)));
@@ -508,6 +513,7 @@ impl Property for C14 {
         let _ = std::fs::remove_dir_all(&dir);
         stats.extra.push(("realworld_compiled_runs".into(), J::Int(compiled_runs as i64)));
         stats.extra.push(("realworld_binary_runs".into(), J::Int(binary_runs as i64)));
+        stats.extra.push(("realworld_binary_runs_with_colour_always".into(), J::Int(binary_colour_runs as i64)));
         stats.extra.push(("compiled_executables".into(), J::Int(exes.len() as i64)));
         stats.extra.push((
             "realworld_note".into(),
@@ -549,7 +555,7 @@ impl Property for C14 {
             None
         } else {
             let r = crate::props::c01::real_run(&sc, level, "c14real");
-            let rest = crate::props::c01::program_stdout(&r.stdout, &ex.out);
+            let rest = if sc.knob("colour") == 1 { crate::props::c01::program_stdout_colour(&r.stdout, &ex.out) } else { crate::props::c01::program_stdout(&r.stdout, &ex.out) };
             if r.timed_out || r.status != Some(0) || rest != ex.out || !r.stderr.is_empty() {
                 let (e, o) = diff_msg(&ex.out, &rest);
                 let mut v = Violation::new(&format!("binary-O{}-output-bytes", level), format!("status 0; {}", e), format!("{}; {} ; stderr {:?}", r.describe(), o, lossy(&r.stderr)));
